@@ -29,7 +29,9 @@ LEVEL_TEXT = (
     "name, properties) and with two or three recordings written one after the other or interleaved (each by a DBHandler / run_meta of its own: different "
     "target urls; the same url recorded twice; address rows left by a discovery run and labelled with ECU names before the recordings start, "
     "plus addresses of ECUs never recorded), selected by ECU name (always when the file holds several recordings), by integer/null "
-    "properties, by string properties or both. Held = every replay produced the recorded bytes (silence where none was recorded) and the "
+    "properties, by string properties or both; family 'update': one ECU (one name, one url) recorded with two software generations (two runs whose properties_pre differ in "
+    "sw_version, in the nullable variant or in both, same state machine, other reply bytes, recorded in either order), optionally next to another ECU that carries the property "
+    "set of one of the two runs, each run replayed with name AND properties (and with the properties alone when no other ECU carries them; never with the name alone). Held = every replay produced the recorded bytes (silence where none was recorded) and the "
     "same session/security level after every step."
 )
 LEVEL_NOTE = (
@@ -37,7 +39,7 @@ LEVEL_NOTE = (
     "RandomUDSServer are not reproducible (unseeded RNG); witnesses carry the recorded bytes."
 )
 RULE = (
-    "cases = (ECU model or script, history seed, database layout, selector); one case = one record/replay pair; non-trivial = the recording "
+    "cases = (ECU model or script [software generation], history seed, database layout, selector); one case = one record/replay pair; non-trivial = the recording "
     "leaves the default state or repeats a request with another answer; distinct = distinct (history seed, layout, selector); "
     "distinct_traces = distinct (request kind, reply kind, client state) sequences; evaluations = replayed steps compared. After the first "
     "difference of a pair the rest of that replay is not judged (it is a consequence). A replay difference under selection by name is keyed replay/wrong-recording-selected/... "
@@ -47,6 +49,9 @@ ASSUMPTIONS = [
     "recording uses max_retry 0 and implicit logging: one transmission and one row per request",
     "databases with several recordings are only replayed with a selector (name, properties or both); recordings of different ECUs have their own ECU name, target and property set",
     "two recordings under one ECU name are only made of an ECU whose answers are a function of (session, security level, request) and whose state the client sees completely (no suppressed requests)",
+    "family 'update': the two runs of one ECU name answer differently (software generation) and differ in properties_pre; such a run is only replayed with a selector that singles it out: "
+    "name AND properties, or the properties alone if no other ECU of the file carries them (ECU name 'or' properties in the statement is read inclusively: commands/script/vecu.py takes both options "
+    "at once); the name alone is not used there, and another ECU of that file is replayed by name, by name AND properties, and by properties alone only if they are its own",
     "ecu rows and address.ecu are written by the harness with SQL (gallia has no writer for them); properties_pre is written by DBHandler.insert_scan_run_properties_pre",
     "address rows that exist before a recording starts come from gallia's own writers: DBHandler.insert_discovery_result of a discovery run in the same file, or an earlier recording of the same url",
     "every await on DBHandler / DBUDSServer has a 60 s wall-clock guard (such a step takes milliseconds). A DBHandler step of a recording that raises or does not return is reported as a "
@@ -70,6 +75,8 @@ def shards(tier: str, seed: int) -> list[dict[str, Any]]:
             out.append({"family": "scripted", "base": f"q{seed}-s{i}", "n": 50})
         for i in range(4):
             out.append({"family": "multi", "base": f"q{seed}-m{i}", "n": 20})
+        for i in range(3):
+            out.append({"family": "update", "base": f"q{seed}-u{i}", "n": 20})
         return out
     for i in range(6):
         out.append({"family": "clean", "base": f"t{seed}-c{i}", "n": 700})
@@ -79,6 +86,8 @@ def shards(tier: str, seed: int) -> list[dict[str, Any]]:
         out.append({"family": "scripted", "base": f"t{seed}-s{i}", "n": 900})
     for i in range(4):
         out.append({"family": "multi", "base": f"t{seed}-m{i}", "n": 250})
+    for i in range(4):
+        out.append({"family": "update", "base": f"t{seed}-u{i}", "n": 250})
     return out
 
 
@@ -96,6 +105,15 @@ def required_reach(tier: str) -> dict[str, int]:
         "db.scan-run-starts.new-address-row": 100 * k, "db.scan-run-starts.address-row-already-exists.same-url-recorded-before": 12 * k,
         "db.scan-run-starts.address-row-already-exists.from-discovery-run-labelled-up-front": 30 * k,
         "replay-by-name.same-url-recorded-before": 12 * k, "replay-by-name.address-from-discovery-run-labelled-up-front": 30 * k,
+        # one ECU name with two runs, two property sets and other answers (a software update between the recordings)
+        "family.update": 40 * k, "db.same-ecu-recorded-with-other-properties": 40 * k, "db.same-ecu-recorded-with-other-properties.answers-differ": 30 * k,
+        "db.same-ecu-recorded-with-other-properties.differ-in:sw_version": 6 * k, "db.same-ecu-recorded-with-other-properties.differ-in:variant": 6 * k,
+        "db.same-ecu-recorded-with-other-properties.differ-in:both": 6 * k, "db.same-ecu-recorded-with-other-properties.second-property-set-recorded-first": 10 * k,
+        "db.other-ecu-shares-a-property-set": 8 * k,
+        "replay-by-name+properties.other-run-of-the-ecu-has-other-properties.and-answers-differently": 50 * k,
+        "replay-by-int-properties.other-run-of-the-ecu-has-other-properties.and-answers-differently": 30 * k,
+        "replay-by-name+properties.neither-option-alone-selects-the-run": 8 * k,
+        "replay-by-name+properties.other-ecu-has-the-same-properties.and-answers-differently": 10 * k,
         "scripted.fallback": 10 * k, "scripted.malformed-reply": 10 * k, "scripted.mismatching-reply": 10 * k, "#model:": 40,
     }
 
@@ -165,9 +183,10 @@ class Gen:
 class ScriptedECU:
     """An ECU that is not gallia's virtual ECU: session timer fallback, malformed / mismatching / missing replies."""
 
-    def __init__(self, rng: random.Random, flavour: str, dids: list[int]):
+    def __init__(self, rng: random.Random, flavour: str, dids: list[int], sw: int = 0):
         self.rng = rng
         self.flavour = flavour
+        self.sw = sw  # software generation ('pure' only): same state machine, other answers (0 = the answers below as they stand)
         self.session = 1
         self.level: int | None = None
         self.idle = 0
@@ -193,7 +212,7 @@ class ScriptedECU:
         pos: bytes | None
         if sid == 0x10 and len(q) == 2:
             self.session, self.level, self.idle, self.seed = q[1] & 0x7F, None, 0, None
-            pos = bytes([0x50, q[1] & 0x7F, 0x00, 0x32, 0x01, 0xF4])
+            pos = bytes([0x50, q[1] & 0x7F, 0x00, 0x32 - 7 * self.sw, 0x01, 0xF4])
         elif sid == 0x11 and len(q) == 2:
             self.session, self.level, self.seed = 1, None, None
             pos = bytes([0x51, q[1] & 0x7F])
@@ -206,8 +225,8 @@ class ScriptedECU:
             if self.flavour == "pure":
                 # a function of (session, level, request) only: fixed seed per level, key accepted without a preceding seed request
                 if sf % 2 == 1:
-                    pos = bytes([0x67, sf]) + bytes([sf, sf ^ 0x5A, self.session])
-                elif q[2:] == bytes([sf - 1, (sf - 1) ^ 0x5A, self.session]):
+                    pos = bytes([0x67, sf]) + bytes([sf, sf ^ 0x5A ^ self.sw, self.session])
+                elif q[2:] == bytes([sf - 1, (sf - 1) ^ 0x5A ^ self.sw, self.session]):
                     self.level = sf - 1
                     pos = bytes([0x67, sf])
                 else:
@@ -234,11 +253,15 @@ class ScriptedECU:
                 return None
             if self.session == 1 and did & 1:
                 return b"\x7f\x22\x7f"
-            return b"\x62" + q[1:3] + bytes([self.session, self.level or 0, did & 0xFF])
+            if self.sw and did & 4 and self.level is None:
+                return b"\x7f\x22\x33"  # the update protected this identifier
+            return b"\x62" + q[1:3] + bytes([self.session, self.level or 0, did & 0xFF]) + (b"SW" + bytes([self.sw]) if self.sw else b"")
         elif sid == 0x2E and len(q) >= 4:
+            if self.sw and self.session == 1:
+                return b"\x7f\x2e\x7f"  # the update moved writing out of the default session
             return (b"\x6e" + q[1:3]) if self.level is not None else b"\x7f\x2e\x33"
         elif sid == 0x31 and len(q) >= 4:
-            pos = bytes([0x71, q[1] & 0x7F]) + q[2:4] + bytes([self.session])
+            pos = bytes([0x71, q[1] & 0x7F]) + q[2:4] + bytes([self.session]) + (bytes([self.sw]) if self.sw else b"")
         else:
             return bytes([0x7F, sid, 0x11])
         return None if sup else pos
@@ -325,7 +348,7 @@ class Recorder:
 
             self.tr = dh.ResponderTransport(responder)
         else:
-            self.script = ScriptedECU(random.Random(f"{self.ecu_kind[1]}"), self.ecu_kind[2], self.gen.dids)
+            self.script = ScriptedECU(random.Random(f"{self.ecu_kind[1]}"), self.ecu_kind[2], self.gen.dids, sw=self.ecu_kind[3] if len(self.ecu_kind) > 3 else 0)
             self.tr = dh.ResponderTransport(self.script)
         self.ecu = dh.make_ecu(self.tr, self.handler, 0)
 
@@ -425,7 +448,8 @@ def reply_kind(q: bytes, r: bytes | None) -> str:
     return {"session": "session-change", "reset": "reset", "security": "security-access"}.get(d["kind"], "other-positive-reply")
 
 
-def judge(ctx: Any, rec: Recording, rows: list[dict[str, Any]], out: list[tuple[Any, dict[str, Any]]], case: dict[str, Any], selector: str) -> None:
+def judge(ctx: Any, rec: Recording, rows: list[dict[str, Any]], out: list[tuple[Any, dict[str, Any]]], case: dict[str, Any], selector: str,
+          others: list[Recording] | None = None) -> None:
     ctx.reach("pairs")
     ctx.reach(f"select.{selector}")
 
@@ -467,6 +491,10 @@ def judge(ctx: Any, rec: Recording, rows: list[dict[str, Any]], out: list[tuple[
             if selector == "string-properties" and got is None and all(o[0] is None for o in out):
                 cause = "string-property-selects-nothing"
             detail = {"request": q, "recorded": want, "replayed": got, "row_response_pdu": row["response_pdu"] if row else None, "rows": len(rows), "warnings": rec.lost[:3]}
+            # diagnosis only (the key does not depend on it): which other recordings of the file hold the replayed reply for this request
+            served = [{"ecu_name": o.name, "properties": o.props, "scan_run": o.scan_run} for o in (others or []) if any(q2 == q and r2 == got for q2, r2 in zip(o.requests, o.replies))]
+            if served:
+                detail["replayed_reply_was_recorded_for_this_request_in"] = served
             misattached = rec.attached_url != rec.target
             if selector in ("name", "name+properties") and (misattached or rec.foreign_runs):
                 # the join scan_run -> address -> ecu leads elsewhere: the file attaches this run to another address row and/or another ECU's run to this one
@@ -536,20 +564,50 @@ def survey(ctx: Any, rec: Recording) -> bool:
     return left_default or other_answer
 
 
+def int_props(rec: Recording) -> dict[str, Any]:
+    return {"sw_version": rec.props["sw_version"], "variant": rec.props["variant"]}
+
+
+def answered_otherwise(rec: Recording, other: Recording) -> int:
+    """number of steps of `rec` for which `other` holds a row with the same request in the same (client) state and another reply:
+    the rows a replay of `rec` is served from as soon as the selection lets `other` in"""
+    theirs: dict[tuple[Any, ...], set[bytes | None]] = {}
+    prev: dict[str, Any] = {"session": 1, "security_access_level": None}
+    for q, r, s in zip(other.requests, other.replies, other.client_states):
+        theirs.setdefault((prev["session"], prev["security_access_level"], q), set()).add(r)
+        prev = s
+    n = 0
+    prev = {"session": 1, "security_access_level": None}
+    for q, r, s in zip(rec.requests, rec.replies, rec.client_states):
+        if theirs.get((prev["session"], prev["security_access_level"], q), {r}) != {r}:
+            n += 1
+        prev = s
+    return n
+
+
 # ---- one database ---------------------------------------------------------------------------------------
 async def one_database(ctx: Any, family: str, hseed: str, path: Path, catch: dh.Catcher) -> None:
     rng = random.Random(hseed + "/layout")
+    update = family == "update"  # one ECU (name, target) recorded with two software versions: two runs, two property sets, other answers
+    several = family in ("multi", "update")
     same_ecu = family == "multi" and rng.random() < 0.4
-    nrec = 1 if family != "multi" else 2 if same_ecu else rng.choice([2, 2, 3])
-    interleaved = family == "multi" and rng.random() < 0.35
-    clean = family in ("clean", "multi")
+    nrec = 1 if not several else 2 if same_ecu else rng.choice([2, 3, 3]) if update else rng.choice([2, 2, 3])
+    interleaved = several and rng.random() < 0.35
+    clean = family in ("clean", "multi", "update")
     recs: list[Recording] = []
     recorders: list[Recorder] = []
-    share = family == "multi" and rng.random() < 0.8
+    share = several and rng.random() < 0.8
+    gens = rng.sample([0, 1, 2, 3], 3) if update else []  # software generations (up- or downgrade; the third is another ECU)
+    differs = rng.choice(["sw_version", "variant", "both"]) if update else None  # what the update changed in the property set
+    shares_with = rng.randrange(2) if update and nrec == 3 and rng.random() < 0.6 else None  # the other ECU has the property set of this run
     for j in range(nrec):
-        if same_ecu:
+        if update:
+            # the same state machine (answers are a function of session, level, request and software generation)
+            kind: tuple[Any, ...] = ("script", f"{hseed}/pure", "pure", gens[j])
+            model_id = f"script:pure:sw{gens[j]}"
+        elif same_ecu:
             # the same deterministic ECU (answers are a function of session, level and request) recorded twice under one name and target
-            kind: tuple[Any, ...] = ("script", f"{hseed}/pure", "pure")
+            kind = ("script", f"{hseed}/pure", "pure")
             model_id = "script:pure"
         elif family == "scripted":
             flavour = rng.choice(["fallback", "odd", "plain"])
@@ -561,20 +619,29 @@ async def one_database(ctx: Any, family: str, hseed: str, path: Path, catch: dh.
             kind = ("rng", sseed, rp)
             model_id = f"rng:{sseed}:{rp}"
         ctx.reach(f"model:{model_id}" if kind[0] == "script" else f"model:rng:{kind[2]}:{zlib.crc32(str(kind[1]).encode()) % 16}")
-        jj = 0 if same_ecu else j
+        jj = 0 if same_ecu or (update and j < 2) else j
         props = {"sw_version": 100 + jj, "variant": None if jj % 2 == 0 else jj, "vin": f"VIN{hseed}#{jj}", "hw": "A" if same_ecu else rng.choice(["A", "B"])}
+        if update and j == 1:
+            if differs in ("sw_version", "both"):
+                props["sw_version"] = 101
+            if differs in ("variant", "both"):
+                props["variant"] = 1
+        if update and j == 2 and shares_with is not None:
+            props["sw_version"], props["variant"] = recs[shares_with].props["sw_version"], recs[shares_with].props["variant"]
         rec = Recording(f"ECU-{jj}-{zlib.crc32(hseed.encode()) % 1000}", f"vf://c12/{hseed}/{jj}", props, model_id)
         recs.append(rec)
         length = rng.choice([5, 8, 60, rng.randint(5, 60), rng.randint(5, 60), rng.randint(20, 60)])
-        if same_ecu:
+        if same_ecu or update:
             length = max(length, rng.randint(30, 60))  # the other recording's rows are only consulted for requests both recordings contain
         # recordings that share the history seed ask (mostly) the same questions of different ECUs
         rseed = f"{hseed}/req" if (share and not same_ecu) else f"{hseed}/req/{j}"
-        recorders.append(Recorder(rec, path, rseed, family, kind, clean, length, pool_seed=f"{hseed}/pool" if same_ecu else None))
+        recorders.append(Recorder(rec, path, rseed, family, kind, clean, length, pool_seed=f"{hseed}/pool" if same_ecu or update else None))
+    if update:
+        rng.shuffle(recorders)  # recording order: the other ECU first, between or last; the later software first or second (recs keeps the layout order)
     # second layout stream (own generator: the layouts drawn above stay what they were)
     rng2 = random.Random(hseed + "/layout2")
-    discovery = family == "multi" and rng2.random() < 0.5  # address rows exist up front and carry their ECU names before any recording
-    label_between = same_ecu and not discovery and not interleaved and rng2.random() < 0.5
+    discovery = several and rng2.random() < 0.5  # address rows exist up front and carry their ECU names before any recording
+    label_between = (same_ecu or update) and not discovery and not interleaved and rng2.random() < 0.5
     extra_urls = [f"vf://c12/{hseed}/other{k}" for k in range(rng2.choice([0, 0, 1, 2]))] if discovery else []
     labelled: set[str] = set()
 
@@ -659,6 +726,16 @@ async def one_database(ctx: Any, family: str, hseed: str, path: Path, catch: dh.
                           "a DBHandler step of the recording run raises or does not return: the recording is not (completely) in the database", what)
     if same_ecu:
         ctx.reach("db.same-ecu-recorded-twice")
+    if update:
+        ctx.reach("db.same-ecu-recorded-with-other-properties")
+        ctx.reach(f"db.same-ecu-recorded-with-other-properties.differ-in:{differs}")
+        when = {id(r.rec): n for n, r in enumerate(recorders)}
+        if when[id(recs[1])] < when[id(recs[0])]:
+            ctx.reach("db.same-ecu-recorded-with-other-properties.second-property-set-recorded-first")
+        if all(r.failed is None for r in recs[:2]) and (answered_otherwise(recs[0], recs[1]) or answered_otherwise(recs[1], recs[0])):
+            ctx.reach("db.same-ecu-recorded-with-other-properties.answers-differ")
+        if shares_with is not None:
+            ctx.reach("db.other-ecu-shares-a-property-set")
     if nrec > 1:
         ctx.reach("db.two-or-more-recordings")
         common = set(recs[0].requests)
@@ -683,8 +760,31 @@ async def one_database(ctx: Any, family: str, hseed: str, path: Path, catch: dh.
                 ctx.reach("scripted.mismatching-reply")
         case = {"family": family, "hseed": hseed, "recordings": nrec, "interleaved": interleaved, "same_ecu_twice": same_ecu, "discovery_run_first": discovery,
                 "recording": j, "model": rec.model_id, "length": len(rec.requests), "nontrivial": nontrivial}
+        if update:
+            case.update({"software_update": True, "update_changed_properties": differs, "other_ecu_has_properties_of_recording": shares_with,
+                         "recorded_in_order": [recs.index(r.rec) for r in recorders]})
         selectors: list[tuple[str, str | None, dict[str, Any] | None]] = []
-        if nrec == 1:
+        twins = [o for o in recs if o is not rec and o.name == rec.name and int_props(o) != int_props(rec)]  # other runs of this ECU, other properties
+        namesakes = [o for o in recs if o is not rec and o.name != rec.name and int_props(o) == int_props(rec)]  # other ECUs, same properties
+        if update:
+            # the name alone does not say which software was meant, the properties alone do not when another ECU carries them too
+            extra = None
+            selectors.append(("name+properties", None, None))
+            if not namesakes:
+                selectors.append(("int-properties", None, None))
+            if not twins:
+                selectors.append(("name", None, None))
+            other_answers = sum(answered_otherwise(rec, o) for o in twins if o.failed is None)
+            for sel, _, _ in selectors:
+                if twins and sel != "name":
+                    ctx.reach(f"replay-by-{sel}.other-run-of-the-ecu-has-other-properties")
+                    if other_answers:
+                        ctx.reach(f"replay-by-{sel}.other-run-of-the-ecu-has-other-properties.and-answers-differently")
+            if twins and namesakes:
+                ctx.reach("replay-by-name+properties.neither-option-alone-selects-the-run")
+            if namesakes and any(answered_otherwise(rec, o) for o in namesakes if o.failed is None):
+                ctx.reach("replay-by-name+properties.other-ecu-has-the-same-properties.and-answers-differently")
+        elif nrec == 1:
             selectors.append(("none", None, None))
             extra = rng.choice(["name", "int-properties", "string-properties", "name+properties", None, None])
         else:
@@ -710,7 +810,7 @@ async def one_database(ctx: Any, family: str, hseed: str, path: Path, catch: dh.
                 props = {"vin": rec.props["vin"]}
             out = await replay_recording(path, name, props, rec.requests)
             ctx.case((hseed, j, sel, nrec, interleaved), nontrivial=nontrivial, n=0)
-            judge(ctx, rec, rows, out, case, sel)
+            judge(ctx, rec, rows, out, case, sel, [o for o in recs if o is not rec])
         if ctx.rng.random() < 0.03:
             ctx.sample({**case, "ecu_name": rec.name, "properties": rec.props,
                         "history": [[q, r, f"{s['session']:#x}/{s['security_access_level']}"] for q, r, s in zip(rec.requests[:12], rec.replies[:12], rec.client_states[:12])]})
